@@ -36,3 +36,27 @@ Inductive regen (es : list ent) (s : strat) : alias -> Prop :=
 | regen_all a e : find_ent es a = Some e -> s_all s = true -> regen es s a
 | regen_issuer a e p : find_ent es a = Some e -> issuer_of e = Some p -> regen es s p -> regen es s a
 | regen_local a e : find_ent es a = Some e -> local_reason es s e = true -> regen es s a.
+
+(* executable counterparts, used as search oracles by the correspondence check (and proved equivalent to the
+   relations above in Proofs/RegenBoolProofs.v) *)
+Fixpoint reachb (fuel : nat) (es : list ent) (a : alias) : bool :=
+  match fuel with
+  | O => false
+  | S f => match find_ent es a with
+           | None => false
+           | Some e => match issuer_of e with
+                       | None => true
+                       | Some p => reachb f es p
+                       end
+           end
+  end.
+
+Fixpoint regenb (fuel : nat) (es : list ent) (s : strat) (a : alias) : bool :=
+  match fuel with
+  | O => false
+  | S f => match find_ent es a with
+           | None => false
+           | Some e => s_all s || local_reason es s e
+                       || match issuer_of e with Some p => regenb f es s p | None => false end
+           end
+  end.
